@@ -79,6 +79,11 @@ func (w *FindRules) Do(ctx *Context, loc *Location) {
 				w.Disposition = &Condition{"Location is disabled.", "unknown"}
 				return
 			}
+			// The rule searches also point the context at this
+			// location.  Without that, the rule's actions run
+			// against whatever location the caller's context
+			// was used for before.
+			ctx.SetLoc(loc)
 			m, ok := embed.(map[string]interface{})
 			if !ok {
 				err := fmt.Errorf("%#v isn't a rule", embed)
